@@ -1064,9 +1064,10 @@ package rtcp
 //@   allocates[C01] 64 + 8*len(rawPacket)
 //@   ensures[C07] type: err == nil ==> rawPacket[0]>>6 == 2 && rawPacket[1] == 205 && rawPacket[0]&31 == 11
 //@   ensures[C04] fields: err == nil ==> b.SenderSSRC == be32(rawPacket, 4) && b.ReportTimestamp == be32(rawPacket, len(rawPacket)-4)
-//@   ensures[C04,C09] tiled: err == nil ==> 12 + specCCBlocksLen(b.ReportBlocks, len(b.ReportBlocks)) == len(rawPacket)
+//@   ensures[C04,C09] tiled: err == nil && len(rawPacket)%4 == 0 ==> 12 + specCCBlocksLen(b.ReportBlocks, len(b.ReportBlocks)) == len(rawPacket)
+//@   ensures[C04,C09] inside: err == nil ==> 12 + specCCBlocksLen(b.ReportBlocks, len(b.ReportBlocks)) <= len(rawPacket) + 2
 //@   loop 1
-//@     invariant 8 <= offset && offset == 8 + specCCBlocksLen(b.ReportBlocks, len(b.ReportBlocks)) && reportTimestampOffset == len(rawPacket)-4 && unchanged(b.SenderSSRC) && unchanged(b.ReportTimestamp)
+//@     invariant 8 <= offset && offset == 8 + specCCBlocksLen(b.ReportBlocks, len(b.ReportBlocks)) && offset%4 == 0 && offset <= reportTimestampOffset + 2 && (reportTimestampOffset%4 == 0 ==> offset <= reportTimestampOffset) && reportTimestampOffset == len(rawPacket)-4 && unchanged(b.SenderSSRC) && unchanged(b.ReportTimestamp)
 //@     invariant[C01] allocated() <= 8*(offset-8)
 //@     decreases len(rawPacket) + 64 - offset
 
